@@ -388,10 +388,13 @@ def aten_elu(
 ) -> TFloat:
     """elu(Tensor self, Scalar alpha=1, Scalar scale=1, Scalar input_scale=1) -> Tensor"""
 
+    # elu(x) = scale * (x if x > 0 else alpha * (exp(x * input_scale) - 1)):
+    # input_scale only applies to the negative branch.
     input_scale = op.CastLike(input_scale, self)
     scale = op.CastLike(scale, self)
-    self = op.Mul(self, input_scale)
-    return op.Mul(op.Elu(self, alpha=alpha), scale)
+    zero = op.CastLike(0.0, self)
+    negative_branch = op.Elu(op.Mul(self, input_scale), alpha=alpha)
+    return op.Mul(op.Where(op.Greater(self, zero), self, negative_branch), scale)
 
 
 def aten_elu_backward(
